@@ -321,6 +321,16 @@ Proof.
   rewrite map_id. exact ND.
 Qed.
 
+(* ---- endpoint sets: generateUpstream / createUpstream / generateStreamUpstream sort the server
+   addresses (sort.Slice by Address); the addresses of a service are a set the controller collects
+   through a map, so they arrive in any order, possibly with repetitions *)
+Theorem site_endpoints_sorted_deterministic (l1 l2 : list string) :
+  Permutation l1 l2 -> isort (fun a => a) l1 = isort (fun a => a) l2.
+Proof.
+  intros P. apply sort_perm_invariant; [exact P|].
+  intros x y _ _. destruct (String.string_dec x y); [left|right]; assumption.
+Qed.
+
 (* ---- virtualserver.go generateAPIKeyClients #0 (F13) *)
 Theorem site_generateAPIKeyClients_refuted hash (l : list (string * string)) x y :
   In x l -> In y l -> fst x <> fst y ->
